@@ -157,6 +157,7 @@ func (q *UdpTaskQueue) convoy() {
 	}()
 	timer := time.NewTimer(q.agingTime)
 	defer timer.Stop()
+	defer verifYield("convoy.exit", q)
 
 	for {
 		verifYield("convoy.top", q)
